@@ -221,6 +221,19 @@ func CallerSite(skip int) string {
 // After is the point right after a possibly blocking operation returned.
 func After(site string) { Point(site + "+") }
 
+// Woke is called by the shims when a thread resumes after it really had to wait (a mutex was held, a WaitGroup was
+// not yet at zero, ...). Whatever the focus, the thread parks: otherwise it would run on concurrently with the thread
+// whose step released it, and the explorer would neither own nor explore the order of the two.
+func Woke(site string) {
+	s := cur
+	if s == nil {
+		return
+	}
+	if th := s.me(); th != nil {
+		park(s, th, site+"+", 0)
+	}
+}
+
 // Yield is runtime.Gosched under the scheduler, with the CHESS fair-scheduling rule: the yielder is
 // disabled until every thread that was enabled at this moment has taken a step or stopped being enabled.
 func Yield(site string) {
